@@ -41,6 +41,44 @@ func bbDirect(seed uint64, tier string, args []string, w *bufio.Writer) {
 			fmt.Fprintf(w, "DIRECT-FAIL key=bytebuffer.%s %s\n", key, fmt.Sprintf(format, a...))
 		}
 	}
+	// an uncommitted byte is visible through no return value, the one that accompanies an error included: WriteByte / Write /
+	// WriteString of bytes that were never committed, then every reading call on the empty read area
+	func() {
+		defer func() {
+			if p := recover(); p != nil {
+				fail("direct.panic", "uncommitted-byte probe: %v", p)
+			}
+		}()
+		for _, how := range []string{"WriteByte", "Write", "WriteString"} {
+			for _, prior := range []bool{false, true} {
+				b := sonic.NewByteBuffer()
+				if prior {
+					// some committed traffic first (the scratch state of the byte-wise calls has been used)
+					_ = b.WriteByte(0x11)
+					b.Commit(1)
+					_, _ = b.ReadByte()
+					b.Consume(1)
+				}
+				for x := 0x80; x < 0x84; x++ {
+					switch how {
+					case "WriteByte":
+						_ = b.WriteByte(byte(x))
+					case "Write":
+						_, _ = b.Write([]byte{byte(x)})
+					default:
+						_, _ = b.WriteString(string([]byte{byte(x)}))
+					}
+					c, err := b.ReadByte()
+					one := []byte{0}
+					n, err2 := b.Read(one)
+					if err == nil || c == byte(x) || n != 0 || err2 == nil || one[0] == byte(x) || b.ReadLen() != 0 {
+						fail("uncommitted-byte-visible", "%s(%#x) without Commit (prior traffic: %v), then ReadByte -> (%#x, %v), Read -> (%d, %v, buffer byte %#x), ReadLen %d: the byte written and not committed came back to a reader", how, x, prior, c, err, n, err2, one[0], b.ReadLen())
+						return
+					}
+				}
+			}
+		}
+	}()
 	r := newRng(seed*40503 + 5)
 	trials := 20000
 	if tier == "thorough" {
